@@ -1,5 +1,6 @@
 import RichModel.Model.Cells
 import RichModel.Model.Syntax
+import RichModel.Model.SyntaxWrap
 import RichModel.Gen.CellWidths
 import RichModel.Drv.Proto
 /- Driver handlers for property C17 (Syntax / Traceback line fidelity). -/
@@ -25,27 +26,37 @@ def encLinesRes : Except Err (List Line) → String
   | .error e => encErr e
   | .ok ls => "ok:" ++ encStrList ls
 
-/-- option block shared by `syn_render` / `syn_rows`: 13 fields. -/
+def decOptStr (s : String) : Option (List Char) := if s == "-" then none else some (decStr (s.drop 1).toString)
+
+/-- option block of `syn_render`: 14 fields (`dedented` = "-" or "=" followed by the code points). -/
 def decOpts : List String → Option Opts
-  | [ln, start, range, hl, cwid, ts, ww, ig, mw, nw, lw, asc, pad] =>
+  | [ln, start, range, hl, cwid, ts, ww, ig, mw, nw, lw, asc, pad, ded] =>
     some { lineNumbers := decBool ln, startLine := decNat start, lineRange := decRange range,
            highlightLines := decNatList hl, codeWidth := decOptNat cwid, tabSize := decNat ts,
            wordWrap := decBool ww, indentGuides := decBool ig, maxWidth := decNat mw,
-           optNoWrap := decBool nw, legacyWindows := decBool lw, asciiOnly := decBool asc, pad := decBool pad }
+           optNoWrap := decBool nw, legacyWindows := decBool lw, asciiOnly := decBool asc, pad := decBool pad,
+           dedented := decOptStr ded }
+  | _ => none
+
+/-- the eight variant flags of the Text/Wrap models (C05/C02), as their harness sends them -/
+def decWV (s : String) : Option Wrap.WVariant :=
+  match s.toList with
+  | [a, b, c, d, e, f, g, h] => some ⟨⟨a == '1', b == '1', c == '1', d == '1', e == '1', f == '1'⟩, g == '1', h == '1'⟩
   | _ => none
 
 def handlers : List (String × (List String → String)) := [
   -- the whole of console.render(Syntax(...), options): rows of characters
   ("syn_render", fun a => match a with
-    | code :: found :: toks :: skipRaises :: rest =>
-      match decOpts rest with
-      | none => "bad-args"
-      | some o =>
+    | code :: found :: toks :: skipRaises :: rangePop :: wflags :: rest =>
+      match decOpts rest, decWV wflags with
+      | some o, some wv =>
         let toks := decStrList toks
         let lex : List Char → List Line := fun _ => toks
         let code := decStr code
-        if !inDomain cw (decBool skipRaises) o (decBool found) lex code then "unmodelled"
-        else encLinesRes (render cw (decBool skipRaises) o (decBool found) lex code)
+        match renderW wv cw (decBool skipRaises) (decBool rangePop) o (decBool found) lex code with
+        | none => "unmodelled"
+        | some r => encLinesRes r
+      | _, _ => "bad-args"
     | _ => "bad-args"),
   -- the lexer contract: tokens.flatten = pygPre stripnl (expandTabs ts code)
   ("syn_contract", fun a => match a with
@@ -57,6 +68,14 @@ def handlers : List (String × (List String → String)) := [
       match highlight (decBool skipRaises) (decBool found) (decStrList toks) (decStr code) (decRange range) with
       | .error e => encErr e
       | .ok t => "ok:" ++ encStr t
+    | _ => "bad-args"),
+  -- Syntax.highlight with styles: tokens are `text` list + parallel style ids; answer = chars, then per-char ids (0 = no token style)
+  ("syn_highlight_styles", fun a => match a with
+    | [code, found, toks, ids, range, skipRaises] =>
+      let ts := (decStrList toks).zip (decNatList ids)
+      match highlightStyled (decBool skipRaises) (decBool found) ts (decStr code) (decRange range) with
+      | .error e => encErr e
+      | .ok st => "ok:" ++ encStr (st.map (·.1)) ++ "|" ++ " ".intercalate (st.map (fun p => toString (match p.2 with | some i => i + 1 | none => 0)))
     | _ => "bad-args"),
   ("syn_expandtabs", fun a => match a with
     | [s, ts] => encStr (expandTabs (decNat ts) (decStr s))
@@ -74,6 +93,14 @@ def handlers : List (String × (List String → String)) := [
                         optNoWrap := false, legacyWindows := false, asciiOnly := false, pad := false }
       toString (numbersColumnWidth o (decStr code))
     | _ => "bad-args"),
+  ("syn_measure", fun a => match a with
+    | [code, ln, start, cwid, mw] =>
+      let o : Opts := { lineNumbers := decBool ln, startLine := decNat start, lineRange := none, highlightLines := [],
+                        codeWidth := decOptNat cwid, tabSize := 4, wordWrap := false, indentGuides := false, maxWidth := decNat mw,
+                        optNoWrap := false, legacyWindows := false, asciiOnly := false, pad := false }
+      let m := measure o (decStr code) (decNat mw)
+      toString m.1 ++ "," ++ toString m.2
+    | _ => "bad-args"),
   ("syn_textsplit", fun a => match a with
     | [s, allowBlank] => encStrList (textSplit (decStr s) (decBool allowBlank))
     | _ => "bad-args"),
@@ -81,7 +108,7 @@ def handlers : List (String × (List String → String)) := [
     | [s] => encStr (removeSuffixNL (decStr s))
     | _ => "bad-args"),
   ("syn_guides", fun a => match a with
-    | [ts, lines] => encLinesRes (indentGuides (decNat ts) (decStrList lines))
+    | [ts, lines, rangePop] => encLinesRes (indentGuides (decBool rangePop) (decNat ts) (decStrList lines))
     | _ => "bad-args"),
   ("syn_slice", fun a => match a with
     | [lines, lo, hi] => encStrList (pySlice (decStrList lines) (decNat lo) (decInt hi))
@@ -91,6 +118,9 @@ def handlers : List (String × (List String → String)) := [
       let l := decStr l
       if !lineInDomain cw (decNat w) false l then "unmodelled"
       else encStr (fitLine cw (decNat w) (decBool pad) (decBool noCrop) l)
+    | _ => "bad-args"),
+  ("tb_syntax_error", fun a => match a with
+    | [text, offset] => encStrList (syntaxErrorRows (decStr text) (decInt offset))
     | _ => "bad-args"),
   -- Traceback._render_stack: the code each frame's Syntax is built from, given the files' contents NOW
   ("tb_codes", fun a => match a with
